@@ -58,10 +58,22 @@ def build2(name="SH2"):
                                         Comp("c2", Type("CHOICE", comps=[Comp("x4", pair("5")), Comp("y4", Type("BIT STRING"))]))],
                ext=[Comp("e1", Type("CHOICE", comps=[Comp("p4", Type("OCTET STRING", tag=("C", 5, "IMPLICIT"))),
                                                      Comp("q4", Type("SEQUENCE OF", elem=Type("BOOLEAN"), tag=("C", 6, "IMPLICIT")))]), optional=True)]))
+    # T5: canonical order of a CHOICE with an untagged CHOICE alternative whose tags are of different classes
+    m.add("T5", Type("CHOICE", comps=[Comp("inner5", Type("CHOICE", comps=[Comp("p5", Type("BOOLEAN", tag=("A", 3, "IMPLICIT"))),
+                                                                          Comp("q5", Type("BOOLEAN", tag=("C", 1, "IMPLICIT")))])),
+                                      Comp("z5", Type("BOOLEAN", tag=("C", 0, "IMPLICIT"))),
+                                      Comp("w5", Type("INTEGER", tag=("P", 0, "IMPLICIT")))]))
+    # T6/T7: EXPLICIT tags around contents whose length crosses the 127/128, 255/256 and 64K length-form boundaries
+    m.add("T6", Type("SEQUENCE", comps=[Comp("a6", Type("OCTET STRING", tag=("C", 1, "EXPLICIT"))), Comp("b6", Type("BOOLEAN"))]))
+    m.add("T7", Type("SEQUENCE", comps=[Comp("x7", Type("IA5String", tag=("C", 0, "EXPLICIT")))], tag=("A", 5, "EXPLICIT")))
+    m.add("T8", Type("OCTET STRING", tag=("P", 2, "EXPLICIT")))
     for t in m.types.values():
         _gen._set_module(t, m)
     m.finalize()
     return m
+
+
+EXPL_LENS = sorted(set(b + d for b in (128, 256, 65536) for d in range(-8, 3)))
 
 
 def values2(mod, name, rng, quick):
@@ -82,6 +94,17 @@ def values2(mod, name, rng, quick):
         out = [{"c2": ("x4", {"a5": 5, "b5": 6})}, {"c2": ("y4", (b"\xa5\x80", 9))}, {"c1": ("a4", ["é", "zz"]), "c2": ("x4", {"a5": -1, "b5": 1})},
                {"c1": ("b4", "ia5"), "c2": ("y4", (b"", 0))}, {"c2": ("x4", {"a5": 1, "b5": 2}), "e1": ("p4", b"\x00\x01\x02")},
                {"c1": ("a4", []), "c2": ("y4", (b"\x80", 1)), "e1": ("q4", [True, False, True])}]
+    elif name == "T5":
+        out = [("inner5", ("p5", True)), ("inner5", ("q5", False)), ("z5", True), ("w5", -1)]
+    elif name in ("T6", "T7", "T8"):
+        lens = [l for l in EXPL_LENS if l < 1000 or not quick or l in (65533, 65535, 65536)]
+        for n in lens:
+            if name == "T6":
+                out.append({"a6": bytes((i * 5 + n) & 0xff for i in range(n)), "b6": True})
+            elif name == "T7":
+                out.append({"x7": "".join(chr(0x61 + (i % 26)) for i in range(n))})
+            else:
+                out.append(bytes(n))
     return out
 
 
